@@ -47,8 +47,10 @@ RULE = ('exh: for high in 1..8 and 24 master seeds, ALL indices < high and ALL i
         'cancelled and re-submitted batch index')
 COMPONENTS = {
     'real': ['elfi.utils.get_sub_seed', 'elfi.loader.RandomStateLoader',
-             'ComputationContext.caches[sub_seed]', 'samplers + BatchHandler + clients (sim kind)'],
-    'stub': ['SimBackend under the clients (sim kind)', 'numpy.Inf alias shim'],
+             'ComputationContext.caches[sub_seed]', 'samplers + BatchHandler + clients (sim kind)',
+             'elfi.tools.vectorize / external_operation / prepare_seed (ext kind)'],
+    'stub': ['SimBackend under the clients (sim kind)', 'numpy.Inf alias shim',
+             'subprocess module as seen by elfi.model.tools -> in-process echo (ext kind)'],
 }
 ASSUMPTIONS = [
     'reference: the (i+1)-th distinct value of RandomState(seed).randint(high, dtype=uint32)\'s '
